@@ -852,6 +852,13 @@ class Fn:
         take each switch edge.  Returns a list of dicts {atom: bool}, one per distinct path state
         reaching `site` (empty list: site unreachable), or None if the state budget is exceeded.
         A guard expressed as `edge_dominates` is the special case of one switch directly on one atom."""
+        memo = self.__dict__.setdefault("_bool_states_memo", {})
+        if site in memo:
+            return memo[site]
+        memo[site] = self._bool_states_at(site, max_states)
+        return memo[site]
+
+    def _bool_states_at(self, site, max_states):
         self.succ(0)
         atom_of_call = {}
         for blk in self.blocks:
